@@ -36,9 +36,11 @@ type InitRes struct {
 
 // Actor is one party making one helper call (or a third-party disturbance).
 type Actor struct {
-	// K: uwc modify addfin remfin teardown tp-phase. (tp-recreate / tp-destroy are interpreted for replays but
-	// not generated: destroy + re-create restarts versions at 1, so a helper holding a stale read can succeed on the
-	// new incarnation (ABA). Destroy is not among the steps C04 quantifies over; see DESIGN.md.)
+	// K: uwc modify addfin remfin teardown, and third parties tp-phase tp-create tp-destroy tp-recreate.
+	// Destroy + re-create restarts versions at 1, so a helper holding a stale read of the previous incarnation can
+	// succeed on the new one (ABA). Destroy is not among the steps C04 quantifies over: a key on which such an ABA
+	// commit is recognised (the committed value is the helper's mutation applied to a same-version value of an
+	// earlier incarnation) is excluded from the value oracles of that case; see DESIGN.md.
 	K     string `json:"k"`
 	Via   string `json:"via"` // wrap owned safe
 	Mut   int    `json:"mut"` // 0 append token 1 set unique label 2 no-op 3 fail
@@ -76,7 +78,8 @@ func Gen(t *rapid.T) Plan {
 	na := rapid.IntRange(2, 6).Draw(t, "nactors")
 	for i := 0; i < na; i++ {
 		p.Actors = append(p.Actors, Actor{
-			K: rapid.SampledFrom([]string{"uwc", "uwc", "uwc", "modify", "modify", "modify", "addfin", "remfin", "teardown", "teardown", "tp-phase"}).Draw(t, "k"),
+			K: rapid.SampledFrom([]string{"uwc", "uwc", "uwc", "modify", "modify", "modify", "addfin", "remfin", "teardown", "teardown", "tp-phase",
+				"tp-create", "tp-destroy", "tp-recreate"}).Draw(t, "k"),
 			Via:   rapid.SampledFrom([]string{"wrap", "wrap", "owned", "safe"}).Draw(t, "via"),
 			Mut:   rapid.SampledFrom([]int{0, 0, 0, 1, 1, 2, 3}).Draw(t, "mut"),
 			Owner: rapid.SampledFrom([]int{3, 3, 3, 3, 3, 3, 3, 3, 0, 1, 2}).Draw(t, "owner"),
@@ -147,7 +150,7 @@ func (as *actorState) applyModel(old *model.Res) *model.Res {
 		}
 	case "remfin":
 		n.Fins = slices.DeleteFunc(n.Fins, func(f string) bool { return f == hres.Finalizers[as.a.Fin] })
-	case "teardown":
+	case "teardown", "tp-phase":
 		n.Phase = 1
 	}
 
@@ -306,6 +309,8 @@ func runBubble(p Plan) (v hk.Verdict) {
 						_ = px.Create(ctx, hres.New(as.key.NS, as.key.Typ, as.key.ID, "re"), state.WithCreateOwner(as.owner))
 					}
 				}
+			case "tp-create":
+				_ = px.Create(ctx, hres.New(as.key.NS, as.key.Typ, as.key.ID, "tp"), state.WithCreateOwner(as.owner))
 			case "tp-destroy":
 				r, err := px.Get(ctx, ptr)
 				if err == nil {
@@ -350,9 +355,90 @@ func runBubble(p Plan) (v hk.Verdict) {
 
 	commits, calls, _ := s.Snapshot()
 
+	// ABA across incarnations (outside the quantifier): recognise commits that are a helper's mutation applied to a
+	// same-version value of an earlier incarnation of the key, and leave such keys out of the value oracles
+	abaKeys := map[model.Key]bool{}
+	{
+		commitActor := map[int]*actorState{}
+
+		for _, c := range calls {
+			if c.CommitIdx >= 0 {
+				for _, as := range actors {
+					if as.name == c.Actor {
+						commitActor[c.CommitIdx] = as
+					}
+				}
+			}
+		}
+
+		incNow := map[model.Key]int{}
+		incOf := make([]int, len(commits))
+
+		for k, r := range initial {
+			if r != nil {
+				incNow[k] = 1
+			}
+		}
+
+		for i, c := range commits {
+			if c.Kind == model.Created {
+				incNow[c.New.Key]++
+			}
+
+			incOf[i] = incNow[c.New.Key]
+
+			as := commitActor[i]
+			if c.Kind != model.Updated || c.Old == nil || as == nil || (strings.HasPrefix(as.a.K, "tp-") && as.a.K != "tp-phase") {
+				continue
+			}
+
+			want := as.applyModel(c.Old)
+			want.Ver = c.Old.Ver + 1
+
+			if model.EqualValue(want, c.New) {
+				continue
+			}
+
+			for j := 0; j < i; j++ {
+				cj := commits[j]
+				if cj.New.Key != c.New.Key || cj.Kind == model.Destroyed || cj.New.Ver != c.Old.Ver || incOf[j] == incOf[i] {
+					continue
+				}
+
+				w2 := as.applyModel(cj.New)
+				w2.Ver = c.Old.Ver + 1
+
+				if model.EqualValue(w2, c.New) {
+					abaKeys[c.New.Key] = true
+				}
+			}
+
+			if r := initial[c.New.Key]; r != nil && incOf[i] > 1 && r.Ver == c.Old.Ver {
+				w2 := as.applyModel(r)
+				w2.Ver = c.Old.Ver + 1
+
+				if model.EqualValue(w2, c.New) {
+					abaKeys[c.New.Key] = true
+				}
+			}
+		}
+
+		if len(abaKeys) > 0 {
+			v.Label("aba-across-incarnations-tolerated")
+		}
+
+		if len(incNow) > 0 {
+			for _, n := range incNow {
+				if n > 1 {
+					v.Label("key-re-created")
+				}
+			}
+		}
+	}
+
 	// global log invariants: version +1 per update, values only grow (all generated mutators append)
 	for i, c := range commits {
-		if c.Kind != model.Updated {
+		if c.Kind != model.Updated || abaKeys[c.New.Key] {
 			continue
 		}
 
@@ -380,7 +466,7 @@ func runBubble(p Plan) (v hk.Verdict) {
 	conflictSeen := false
 
 	for _, as := range actors {
-		if strings.HasPrefix(as.a.K, "tp-") {
+		if strings.HasPrefix(as.a.K, "tp-") || abaKeys[as.key] {
 			continue
 		}
 
